@@ -66,7 +66,11 @@ pub fn render_enum(e: &EnumDecl, o: &RenderOpts) -> String {
     if o.docs {
         s.push_str("/// documented enum\n");
     }
-    s.push_str(&format!("#[bitbybit::bitenum({}{})]\n", storage, exh));
+    if e.args_swapped && !exh.is_empty() {
+        s.push_str(&format!("#[bitbybit::bitenum({}, {})]\n", exh.trim_start_matches(", "), storage));
+    } else {
+        s.push_str(&format!("#[bitbybit::bitenum({}{})]\n", storage, exh));
+    }
     if !o.enum_derives.is_empty() {
         s.push_str(&o.enum_derives);
         s.push('\n');
